@@ -306,6 +306,89 @@ Definition run_grid_ctor (x64 : bool) (c : landscape + errkind) (axes : list (li
 Definition run_points_ctor (x64 : bool) (c : landscape + errkind) (pts : list (list coord)) : result :=
   match c with inl l => run_points x64 l pts | inr e => Error e end.
 
+(* ------------------------------------------------------------------------------------------ *)
+(* Sampling fields of different (broadcastable) shapes: world2index and get_coverage receive
+   theta and phi as arrays (shape, row-major data) and the arithmetic of pixel2index / of
+   jax_healpy broadcasts them (NumPy rules: shapes aligned on the LAST axis, a dimension 1 or a
+   missing leading dimension is repeated). *)
+
+Definition bdim (a b : Z) : option Z :=
+  if a =? b then Some a else if a =? 1 then Some b else if b =? 1 then Some a else None.
+(* on reversed shapes (last axis first) *)
+Fixpoint bshape_rev (r1 r2 : list Z) : option (list Z) :=
+  match r1 with
+  | [] => Some r2
+  | a :: r1' =>
+      match r2 with
+      | [] => Some r1
+      | b :: r2' =>
+          match bdim a b, bshape_rev r1' r2' with
+          | Some c, Some r => Some (c :: r)
+          | _, _ => None
+          end
+      end
+  end.
+Definition bshape (s1 s2 : list Z) : option (list Z) :=
+  option_map (@rev Z) (bshape_rev (rev s1) (rev s2)).
+(* missing leading dimensions count as 1 *)
+Definition pad (s t : list Z) : list Z := repeat 1 (length t - length s) ++ s.
+(* n consecutive chunks of k elements *)
+Fixpoint chunks {A : Type} (k n : nat) (l : list A) : list (list A) :=
+  match n with
+  | O => []
+  | S n' => firstn k l :: chunks k n' (skipn k l)
+  end.
+(* np.broadcast_to(array of shape s, t), both of the same rank: along every axis either the
+   sub-arrays are mapped one by one (equal dimensions) or the only one is repeated (dimension 1) *)
+Fixpoint bcast {A : Type} (s t : list Z) (d : list A) : list A :=
+  match s, t with
+  | m :: s', n :: t' =>
+      if m =? n then flat_map (bcast s' t') (chunks (Z.to_nat (prod s')) (Z.to_nat n) d)
+      else concat (repeat (bcast s' t' d) (Z.to_nat n))
+  | _, _ => d
+  end.
+Definition broadcast_to {A : Type} (s t : list Z) (d : list A) : list A := bcast (pad s t) t d.
+
+Record field := mkField { f_shape : list Z; f_data : list coord }.
+
+Inductive cov_result :=
+  | Coverage (index_shape : list Z) (w : Z) (indices coverage : list Z)
+  | Incompatible                       (* shapes that cannot be broadcast: ValueError *)
+  | CovError (e : errkind).
+
+(* the number of samples every direction stands for: 1 in the pinned code, which ignores the
+   position angles; len(sampling) / indices.size with fixes/C17-coverage-pa-broadcast.diff *)
+Definition multiplicity (pa_counts : bool) (t pa_shape : list Z) : option Z :=
+  if pa_counts then
+    match bshape t pa_shape with
+    | Some u => Some (prod u / Z.max (prod t) 1)
+    | None => None
+    end
+  else Some 1.
+
+(* indices = self.world2index(theta, phi); coverage = self.get_coverage(Sampling(theta, phi, pa))
+   for a landscape whose world2pixel is the identity (flat maps: x = theta, y = phi) *)
+Definition sampling_coverage (pa_counts x64 : bool) (c : landscape + errkind) (theta phi : field)
+    (pa_shape : list Z) : cov_result :=
+  match c with
+  | inr e => CovError e
+  | inl l =>
+      match bshape (f_shape theta) (f_shape phi) with
+      | None => Incompatible
+      | Some t =>
+          let xs := broadcast_to (f_shape theta) t (f_data theta) in
+          let ys := broadcast_to (f_shape phi) t (f_data phi) in
+          match run_points x64 l (map (fun xy => [fst xy; snd xy]) (combine xs ys)) with
+          | Error e => CovError e
+          | Ok w idx =>
+              match multiplicity pa_counts t pa_shape with
+              | None => Incompatible
+              | Some m => Coverage t w idx (map (Z.mul m) (get_coverage (len l) idx))
+              end
+          end
+      end
+  end.
+
 Inductive ctor_result := Built (shape pixel_shape : list Z) (len size : Z) | Rejected (e : errkind).
 Definition show_landscape (c : landscape + errkind) : ctor_result :=
   match c with
